@@ -87,6 +87,7 @@ def run_case(case, ctx):
         if type(e).__name__ == "PostBroken":
             raise
         st.count("replace_raised.%s" % type(e).__name__)
+    st.seen("pattern_frame", pat.get("frame", "random"))
     st.seen("pattern_class", pat["cls"])
     st.seen("cell_class", case["cell"])
     for d, _ in built["decoy_groups"]:
